@@ -49,8 +49,10 @@ class Pattern(Leaf):
         elif "'" not in pat:
             regex = f"?'{pat}'"
         else:
-            newpat = pat.replace('"', r'\"')
-            regex = f'?"{newpat}"'
+            # NOTE: neither ?"..." nor ?'...' can hold both kinds of quotes (they have no escapes),
+            #   but /.../ can hold a slash written as the escape \/
+            newpat = re.sub(r'(?<!\\)((?:\\\\)*)/', r'\1\\/', pat)
+            regex = f'/{newpat}/'
         return regex
 
     @cached_property
